@@ -55,8 +55,7 @@ def bs_case(kind, call, greek, shape=(1,)):
             mx = api.tensor(c, "m", shape)
             if c.mode == "sym":
                 for a, b in zip(st.terms_of(mx), st.terms_of(s)):
-                    c.assume(tm.ge(a, b))
-                    c.assume(tm.ne(a, tm.ZERO))  # off the branch boundary max == strike
+                    c.assume(tm.ge(a, b))  # (the tie max == strike is included: the derivative is w.r.t. the spot at a fixed running maximum)
             price = lambda s_, t_, v_: m.price(s_, mx, t_, v_)  # noqa: E731
             call_greek = lambda name: getattr(m, name)(s, mx, t, v)  # noqa: E731
         else:
@@ -131,9 +130,8 @@ def functional_case(fname):
                 c.check("bs_european_binary_theta call=%s" % call, api.eq(elem(F.bs_european_binary_theta(s, t, v, call=call, strike=K), 0),
                                                                        elem(-dfun(c, lambda y: price(s, y, v), t), 0), tol=1e-5))
         elif fname == "ambinary":
-            mx = api.tensor(c, "m", (1,), hi=0)
+            mx = api.tensor(c, "m", (1,))
             if c.mode == "sym":
-                c.assume(tm.lt(st.terms_of(mx)[0], tm.ZERO))
                 c.assume(tm.ge(st.terms_of(mx)[0], st.terms_of(s)[0]))
             price = lambda s_, t_, v_: F.bs_american_binary_price(s_, mx, t_, v_)  # noqa: E731
             d = dfun(c, lambda y: price(y, t, v), s) / spot(s)
